@@ -909,6 +909,23 @@ def gen_registrations(rng, n):
     return regs
 
 
+# always run first: named-form registrations whose function name is no hook name, on all three scopes (+ hooks.apply), a subset unregistered
+ORACLE_FIXED = [
+    (
+        [
+            {"id": 0, "scope": "global", "form": "named", "hook": "map_query", "fn_name": "tag_a", "filters": [["apply_to", {"method": "GET"}]]},
+            {"id": 1, "scope": "schema_hook", "form": "named_inner", "hook": "map_query", "fn_name": "tag_b", "filters": [["skip_for", {"path": "/items"}]]},
+            {"id": 2, "scope": "test", "form": "named", "hook": "map_query", "fn_name": "tag_c", "filters": []},
+            {"id": 3, "scope": "test", "form": "apply", "hook": "filter_headers", "fn_name": "tag_d", "filters": []},
+            {"id": 4, "scope": "schema", "form": "function", "hook": "map_query", "fn_name": "map_query", "filters": [["apply_to", {"tag": "users"}]]},
+            {"id": 5, "scope": "global", "form": "named_split", "hook": "before_generate_cookies", "fn_name": "map_query", "filters": [["apply_to", {"path": "/users"}], ["skip_for", {"method": "post"}]]},
+        ],
+        unreg,
+    )
+    for unreg in [(), (0,), (1, 3), (2, 4), (0, 1, 2, 3, 5)]
+]
+
+
 def gen_unregister(rng, regs):
     """A subset of the registrations to unregister afterwards (about a third; more often those whose function name is not the hook name)."""
     return tuple(r["id"] for r in regs if rng.random() < (0.4 if r.get("fn_name", r["hook"]) != r["hook"] else 0.2))
@@ -1139,7 +1156,10 @@ def run(chk: core.Check):
         "filter calls, lone filter call, lone register(name), late decorator filter/apply, direct register_hook_with_name / hooks.apply, "
         "unregister, unregister_all} x 24 function objects (duplicate names, wrong arity, unknown and non-filterable names) x filter calls "
         "over name/method/path/tag/operation_id values, lists, regexes, predicates, incl. empty, duplicate and value+regex calls; "
-        "non-trivial = at least two registrations with different filter sets; distinct by canonical JSON"
+        "non-trivial = at least two registrations with different filter sets; distinct by canonical JSON.  Oracle: 5 fixed + generated sets of 1-6 "
+        "complete registrations (function / named / named-inner / named-split / hooks.apply form; in the named forms the Python function name is "
+        "mostly no hook name at all, sometimes another hook's name) on global, schema.hooks, schema.hook and test scope, about a third unregistered "
+        "afterwards, then real data generation for all 6 operations"
     )
     chk.proofs(["Common", "C19"])
     rng = chk.rng
@@ -1253,8 +1273,11 @@ def run(chk: core.Check):
     n_or = (60 if quick else 600) * (10 if chk.broken else 1)
     wrong = inside = 0
     for i in range(n_or):
-        regs = gen_registrations(rng, rng.choice([1, 2, 3, 4, 6]))
-        unreg = gen_unregister(rng, regs)
+        if i < len(ORACLE_FIXED):
+            regs, unreg = ORACLE_FIXED[i]
+        else:
+            regs = gen_registrations(rng, rng.choice([1, 2, 3, 4, 6]))
+            unreg = gen_unregister(rng, regs)
         chk.count("oracle:unregistered_with_own_function_name", sum(1 for r in regs if r["id"] in unreg and r["fn_name"] != r["hook"]))
         chk.count("oracle:unregistered_by_hook_name", sum(1 for r in regs if r["id"] in unreg and r["fn_name"] == r["hook"]))
         for r in regs:
